@@ -289,6 +289,10 @@ pub struct DgramState {
     inq: VecDeque<(Vec<u8>, SocketAddr)>,
     rwaker: Option<Waker>,
     pub sent: Vec<(Vec<u8>, SocketAddr)>,
+    /// pending false-positive readiness events (readable, then WouldBlock)
+    spurious: usize,
+    /// number of following sends that fail with a transient error
+    send_fail: usize,
 }
 
 #[derive(Clone, Default)]
@@ -302,6 +306,18 @@ impl MockDgram {
             w.wake();
         }
     }
+    /// The socket reports readable although nothing can be received.
+    pub fn spurious_readable(&self) {
+        let mut s = self.0.lock().unwrap();
+        s.spurious += 1;
+        if let Some(w) = s.rwaker.take() {
+            w.wake();
+        }
+    }
+    /// The next send fails (ENOBUFS, EPERM from a firewall ...).
+    pub fn fail_next_send(&self) {
+        self.0.lock().unwrap().send_fail += 1;
+    }
     pub fn sent(&self) -> Vec<(Vec<u8>, SocketAddr)> {
         self.0.lock().unwrap().sent.clone()
     }
@@ -312,7 +328,7 @@ impl Future for Readable {
     type Output = io::Result<()>;
     fn poll(self: Pin<&mut Self>, cx: &mut Context<'_>) -> Poll<Self::Output> {
         let mut s = self.0.lock().unwrap();
-        if s.inq.is_empty() {
+        if s.inq.is_empty() && s.spurious == 0 {
             s.rwaker = Some(cx.waker().clone());
             Poll::Pending
         } else {
@@ -328,7 +344,12 @@ impl AsyncDgramSock for MockDgram {
         data: &[u8],
         dest: &SocketAddr,
     ) -> Poll<io::Result<usize>> {
-        self.0.lock().unwrap().sent.push((data.to_vec(), *dest));
+        let mut s = self.0.lock().unwrap();
+        if s.send_fail > 0 {
+            s.send_fail -= 1;
+            return Poll::Ready(Err(io::Error::new(io::ErrorKind::Other, "mock send error")));
+        }
+        s.sent.push((data.to_vec(), *dest));
         Poll::Ready(Ok(data.len()))
     }
     fn readable(&self) -> Pin<Box<dyn Future<Output = io::Result<()>> + '_ + Send>> {
@@ -336,6 +357,10 @@ impl AsyncDgramSock for MockDgram {
     }
     fn try_recv_buf_from(&self, buf: &mut ReadBuf<'_>) -> io::Result<(usize, SocketAddr)> {
         let mut s = self.0.lock().unwrap();
+        if s.spurious > 0 {
+            s.spurious -= 1;
+            return Err(io::ErrorKind::WouldBlock.into());
+        }
         match s.inq.pop_front() {
             None => Err(io::ErrorKind::WouldBlock.into()),
             Some((d, a)) => {
